@@ -58,3 +58,245 @@ pub fn mixed_radix(mut i: u64, radices: &[u64]) -> Vec<u64> {
 pub fn show(s: &str) -> String {
     format!("{:?}", s)
 }
+
+// ---------------------------------------------------------------------------
+// expression trees
+
+use crate::model::parse::Ast;
+use rust_decimal::Decimal;
+
+#[derive(Clone, Debug)]
+pub enum Kind {
+    Infix(String),
+    /// `x not OP y`
+    NotInfix(String),
+    Prefix(String),
+    Postfix(String),
+    Ternary,
+    Call(usize),
+    List(usize),
+    Map(usize),
+}
+
+impl Kind {
+    fn arity(&self) -> usize {
+        match self {
+            Kind::Infix(_) | Kind::NotInfix(_) => 2,
+            Kind::Prefix(_) | Kind::Postfix(_) => 1,
+            Kind::Ternary => 3,
+            Kind::Call(n) | Kind::List(n) => *n,
+            Kind::Map(n) => 2 * n,
+        }
+    }
+    fn build(&self, mut ch: Vec<Ast>) -> Option<Ast> {
+        Some(match self {
+            Kind::Infix(op) => {
+                let r = ch.pop()?;
+                let l = ch.pop()?;
+                Ast::Binary(op.clone(), Box::new(l), Box::new(r))
+            }
+            Kind::NotInfix(op) => {
+                let r = ch.pop()?;
+                let l = ch.pop()?;
+                Ast::Unary("not".into(), Box::new(Ast::Binary(op.clone(), Box::new(l), Box::new(r))))
+            }
+            Kind::Prefix(op) => {
+                let x = ch.pop()?;
+                // prefix `not` over an infix node is the same AST as the infix-not form
+                if op == "not" && matches!(x, Ast::Binary(..)) {
+                    return None;
+                }
+                Ast::Unary(op.clone(), Box::new(x))
+            }
+            Kind::Postfix(op) => Ast::Postfix(Box::new(ch.pop()?), op.clone()),
+            Kind::Ternary => {
+                let c = ch.pop()?;
+                let b = ch.pop()?;
+                let a = ch.pop()?;
+                Ast::Ternary(Box::new(a), Box::new(b), Box::new(c))
+            }
+            Kind::Call(_) => Ast::Func("f".into(), ch),
+            Kind::List(_) => Ast::List(ch),
+            Kind::Map(_) => {
+                let mut v = Vec::new();
+                let mut it = ch.into_iter();
+                while let (Some(k), Some(x)) = (it.next(), it.next()) {
+                    v.push((k, x));
+                }
+                Ast::Map(v)
+            }
+        })
+    }
+}
+
+/// all ways to write n as an ordered sum of r non-negative integers
+fn compositions(n: usize, r: usize) -> Vec<Vec<usize>> {
+    if r == 0 {
+        return if n == 0 { vec![vec![]] } else { vec![] };
+    }
+    let mut out = Vec::new();
+    for first in 0..=n {
+        for mut rest in compositions(n - first, r - 1) {
+            rest.insert(0, first);
+            out.push(rest);
+        }
+    }
+    out
+}
+
+/// by_size[k] = all trees with exactly k operator nodes over `kinds`, with a placeholder leaf
+pub fn trees_by_size(kinds: &[Kind], max: usize) -> Vec<Vec<Ast>> {
+    let mut by_size: Vec<Vec<Ast>> = vec![vec![Ast::Ref("_".into())]];
+    for n in 1..=max {
+        let mut cur = Vec::new();
+        for k in kinds {
+            let r = k.arity();
+            for comp in compositions(n - 1, r) {
+                // cartesian product of children choices
+                let mut partial: Vec<Vec<Ast>> = vec![vec![]];
+                for sz in &comp {
+                    let mut next = Vec::new();
+                    for p in &partial {
+                        for c in &by_size[*sz] {
+                            let mut q = p.clone();
+                            q.push(c.clone());
+                            next.push(q);
+                        }
+                    }
+                    partial = next;
+                }
+                for ch in partial {
+                    if let Some(t) = k.build(ch) {
+                        cur.push(t);
+                    }
+                }
+            }
+        }
+        by_size.push(cur);
+    }
+    by_size
+}
+
+pub fn leaf_rotation() -> Vec<Ast> {
+    vec![
+        Ast::Ref("a".into()),
+        Ast::Num(Decimal::new(1, 0)),
+        Ast::Ref("b".into()),
+        Ast::Str("s t".into()),
+        Ast::Ref("c.d".into()),
+        Ast::Num(Decimal::new(250, 2)),
+        Ast::Bool(true),
+        Ast::Func("g".into(), vec![]),
+        Ast::Ref("e_1".into()),
+        Ast::Str("q\"(".into()),
+    ]
+}
+
+/// replace placeholder leaves, left to right, by the atoms of the rotation
+pub fn relabel(t: &Ast, next: &mut usize, rot: &[Ast]) -> Ast {
+    let mut go = |x: &Ast, next: &mut usize| relabel(x, next, rot);
+    match t {
+        Ast::Ref(n) if n == "_" => {
+            let a = rot[*next % rot.len()].clone();
+            *next += 1;
+            a
+        }
+        Ast::Unary(op, x) => Ast::Unary(op.clone(), Box::new(go(x, next))),
+        Ast::Postfix(x, op) => Ast::Postfix(Box::new(go(x, next)), op.clone()),
+        Ast::Binary(op, l, r) => {
+            let l2 = go(l, next);
+            let r2 = go(r, next);
+            Ast::Binary(op.clone(), Box::new(l2), Box::new(r2))
+        }
+        Ast::Ternary(a, b, c) => {
+            let a2 = go(a, next);
+            let b2 = go(b, next);
+            let c2 = go(c, next);
+            Ast::Ternary(Box::new(a2), Box::new(b2), Box::new(c2))
+        }
+        Ast::Func(n, v) => Ast::Func(n.clone(), v.iter().map(|x| go(x, next)).collect()),
+        Ast::List(v) => Ast::List(v.iter().map(|x| go(x, next)).collect()),
+        Ast::Stmt(v) => Ast::Stmt(v.iter().map(|x| go(x, next)).collect()),
+        Ast::Map(v) => Ast::Map(
+            v.iter()
+                .map(|(k, x)| {
+                    let k2 = go(k, next);
+                    let x2 = go(x, next);
+                    (k2, x2)
+                })
+                .collect(),
+        ),
+        other => other.clone(),
+    }
+}
+
+pub const ALL_INFIX: &[&str] = &[
+    "=", "+=", "-=", "*=", "/=", "%=", "<<=", ">>=", "&=", "^=", "|=", "||", "&&", "<", "<=", ">", ">=", "==", "!=",
+    "|", "^", "&", "<<", ">>", "+", "-", "*", "/", "%", "beginWith", "endWith", "in",
+];
+
+/// one or two representatives per (level, associativity, type), both setter groups kept
+pub const REP_INFIX: &[&str] = &["=", "<<=", "||", "&&", "<", "==", "|", "^", "&", "<<", "+", "-", "*", "%", "in"];
+
+pub fn mixed_kinds() -> Vec<Kind> {
+    let mut k: Vec<Kind> = REP_INFIX.iter().map(|o| Kind::Infix(o.to_string())).collect();
+    for o in ["in", "==", "+", "&&", "="] {
+        k.push(Kind::NotInfix(o.to_string()));
+    }
+    for o in ["-", "!", "not", "AND"] {
+        k.push(Kind::Prefix(o.to_string()));
+    }
+    k.push(Kind::Postfix("++".into()));
+    k.push(Kind::Ternary);
+    k.push(Kind::Call(1));
+    k.push(Kind::Call(2));
+    k.push(Kind::List(1));
+    k.push(Kind::List(2));
+    k.push(Kind::Map(1));
+    k
+}
+
+/// The program set shared by C02 / C11 / C12 / C05-corruptions, as relabelled ASTs.
+/// `level`: 0 = quick, 1 = thorough.
+pub fn program_trees(level: u32) -> Vec<Ast> {
+    let rot = leaf_rotation();
+    let mut out = Vec::new();
+    let mut push = |t: &Ast, out: &mut Vec<Ast>| {
+        let mut n = 0;
+        out.push(relabel(t, &mut n, &rot));
+    };
+    // F1: pure infix over all 32 operators
+    let all: Vec<Kind> = ALL_INFIX.iter().map(|o| Kind::Infix(o.to_string())).collect();
+    let f1 = trees_by_size(&all, if level == 0 { 2 } else { 3 });
+    for sz in &f1 {
+        for t in sz {
+            push(t, &mut out);
+        }
+    }
+    if level == 0 {
+        let rep: Vec<Kind> = REP_INFIX.iter().map(|o| Kind::Infix(o.to_string())).collect();
+        let f1b = trees_by_size(&rep, 3);
+        for t in &f1b[3] {
+            push(t, &mut out);
+        }
+    }
+    // F2: mixed node kinds
+    let f2 = trees_by_size(&mixed_kinds(), 3);
+    for (n, sz) in f2.iter().enumerate() {
+        if n == 0 {
+            continue;
+        }
+        for t in sz {
+            push(t, &mut out);
+        }
+    }
+    // statement chains of small trees
+    let small: Vec<&Ast> = f2[0].iter().chain(f2[1].iter()).collect();
+    for (i, t1) in small.iter().enumerate() {
+        for t2 in small.iter().skip(i % 3).step_by(3) {
+            push(&Ast::Stmt(vec![(*t1).clone(), (*t2).clone()]), &mut out);
+        }
+    }
+    out.push(Ast::Stmt(vec![]));
+    out
+}
